@@ -68,6 +68,12 @@ def gen(rng, tier):
             dec(rng.randrange(2), rng.randrange(2), s, "exhaustive-small")
     for _ in range(200 if tier == "quick" else 3000):
         L = rng.randrange(1, 40); alldec(bytes(rng.choice(A + b"==a \n\x80") for _ in range(L)), "random-mixed")
+    # text that decodes to NOTHING (only whitespace, lenient mode) right after a successful decode into the same reused output objects, and NUL / control bytes
+    for ws in [b" ", b"\n", b"\r\n", b" \t ", b"\n\n\n\n\n\n\n\n", b"\x00", b"\x0b", b"\x0c", b"MZXW6===\x00", b"MZ\x00XW6==="]:
+        for req in (0, 1):
+            for strict in (0, 1):
+                cases.append(Case("b32dec %d %d %s" % (req, strict, hexs(b"MZXW6YTB")), "prime-before-empty-result", True, spec="spec.b32dec %d %d %s" % (req, strict, hexs(b"MZXW6YTB"))))
+                cases.append(Case("b32dec %d %d %s" % (req, strict, hexs(ws)), "decodes-to-nothing-or-control", True, spec="spec.b32dec %d %d %s" % (req, strict, hexs(ws))))
     # every API family once during static initialisation of the driver (before the library's own dynamic initialisers have run)
     cases.append(Case("staticinit", "static-initialisation battery", True, spec="staticinit"))
     return cases
